@@ -1,0 +1,73 @@
+//! Verification hook for the allocator's operating-system layer, only compiled with
+//! `--cfg tiny_std_verif` (never set by the repository's own build).
+//!
+//! The four raw mapping functions of `allocator/dlmalloc.rs` (`syscall_alloc`,
+//! `syscall_remap`, `syscall_free_part`, `syscall_free`) first offer their request to an
+//! optional, process global hook table. A test harness installs one to serve
+//! `mmap`/`mremap`/`munmap` from a reserved arena with a placement of its choosing, to refuse
+//! on demand and to log every request. With no table installed (or when a hook answers
+//! `None`) the request goes to the kernel exactly as before.
+use core::sync::atomic::{AtomicPtr, Ordering};
+
+/// Hook table. Every function returns `None` to let the real system call run.
+pub struct OsHooks {
+    /// `mmap(size)`: `(base, size, flags)`; a null base means the request was refused.
+    pub alloc: fn(usize) -> Option<(*mut u8, usize, u32)>,
+    /// `mremap(ptr, oldsize, newsize, can_move)`: new base, null when refused.
+    pub remap: fn(*mut u8, usize, usize, bool) -> Option<*mut u8>,
+    /// give back the tail `[ptr + newsize, ptr + oldsize)`: true when released.
+    pub free_part: fn(*mut u8, usize, usize) -> Option<bool>,
+    /// `munmap(ptr, size)`: true when released.
+    pub free: fn(*mut u8, usize) -> Option<bool>,
+}
+
+static HOOKS: AtomicPtr<OsHooks> = AtomicPtr::new(core::ptr::null_mut());
+
+/// Install a hook table for the whole process.
+pub fn install(hooks: &'static OsHooks) {
+    HOOKS.store(
+        core::ptr::from_ref::<OsHooks>(hooks).cast_mut(),
+        Ordering::SeqCst,
+    );
+}
+
+/// Remove the hook table again (every request goes to the kernel afterwards).
+pub fn uninstall() {
+    HOOKS.store(core::ptr::null_mut(), Ordering::SeqCst);
+}
+
+#[inline]
+fn hooks() -> Option<&'static OsHooks> {
+    let p = HOOKS.load(Ordering::SeqCst);
+    if p.is_null() {
+        None
+    } else {
+        // SAFETY: only `install` stores a non-null pointer and it takes a `&'static`
+        Some(unsafe { &*p })
+    }
+}
+
+#[inline]
+pub(crate) fn os_hook_alloc(size: usize) -> Option<(*mut u8, usize, u32)> {
+    hooks().and_then(|h| (h.alloc)(size))
+}
+
+#[inline]
+pub(crate) fn os_hook_remap(
+    ptr: *mut u8,
+    oldsize: usize,
+    newsize: usize,
+    can_move: bool,
+) -> Option<*mut u8> {
+    hooks().and_then(|h| (h.remap)(ptr, oldsize, newsize, can_move))
+}
+
+#[inline]
+pub(crate) fn os_hook_free_part(ptr: *mut u8, oldsize: usize, newsize: usize) -> Option<bool> {
+    hooks().and_then(|h| (h.free_part)(ptr, oldsize, newsize))
+}
+
+#[inline]
+pub(crate) fn os_hook_free(ptr: *mut u8, size: usize) -> Option<bool> {
+    hooks().and_then(|h| (h.free)(ptr, size))
+}
